@@ -8,7 +8,7 @@ PID = 'C08'
 def main(tier, seed, args):
     rep = Report(PID, tier, seed, 'model_checking')
     c = ctx('on')
-    rep.bounds = {'htlc_sets': '1 set; 2 consecutive sets (old lifecycle finishing bookkeeping while the new one starts)', 'parts': '1 per pay command + 1 earlier',
+    rep.bounds = {'htlc_sets': '1 set; 2 consecutive sets (old lifecycle finishing bookkeeping while the new one starts)', 'parts': '1 per pay command + 1 earlier (restart configuration: 2 earlier parts, codes 203/204)', 'pay_outcomes': 'complete, pending, failed, failed with a non-empty / empty partial-completion warning, RPC error 210, RPC error without a node error code',
                   'crash': 1, 'write_faults': '1 datastore write rejected, or applied but reported failed',
                   'outside': 'more lifecycles / parts / faults'}
     rep.assumptions = ['node model of the datastore (modes, generations)', 'every applied environment effect is a possible crash image: the invariant is evaluated after each']
